@@ -30,7 +30,7 @@ DirRun ==
                 ELSE {})
      /\ first' = IF e.n = 1 THEN e.files ELSE first
      /\ nt' = [files |-> nt.files + Len(e.files),
-               faults |-> nt.faults + Len(SelectSeq(e.files, LAMBDA f : f.kind \in FaultKinds))]
+               faults |-> nt.faults + Len(SelectSeq(e.files, LAMBDA f : f.kind \in FaultKinds \cup WriteFaultKinds))]
   /\ i' = i + 1 /\ UNCHANGED <<tid, incon>>
 Finish == /\ i = Len(Traces[tid]) + 1 /\ KitFinish(tid, fails, incon)
           /\ KitCount("files", nt.files) /\ KitCount("faulty_files", nt.faults)
